@@ -97,6 +97,8 @@ def _cancel_programs(tier: str):
         for gaps in itertools.product(GAPS[:3], repeat=n - 1):
             for limit in (1, 2):
                 yield {"gaps": list(gaps), "limit": limit, "dur": 0.5, "period": "float", "fail": None, "cancels": 1}
+                if n <= 3:
+                    yield {"gaps": list(gaps), "limit": limit, "dur": 0.5, "period": "float", "fail": None, "cancels": 1, "fine": True}
 
 
 def explore_config(tier: str, program) -> dict:
@@ -107,7 +109,7 @@ def execute(program, ch: Chooser) -> Result:  # noqa: C901, PLR0912, PLR0915
     P = PERIODS[program["period"]]
     gaps, limit, dur, fail = [g * P for g in program["gaps"]], program["limit"], program["dur"] * P, program["fail"]
     n = len(gaps) + 1
-    w = World(ch, cancel_budget=program.get("cancels", 0), batch=program.get("batch", 1))
+    w = World(ch, cancel_budget=program.get("cancels", 0), batch=program.get("batch", 1), fine=program.get("fine", False))
     viols: list[dict] = []
     try:
         starts: list[tuple[int, float]] = []
